@@ -218,6 +218,7 @@ def g_response(draw):
             # the (valid) answer to another operation / the other level
             spec['payload_of'] = draw(st.sampled_from(PAYLOAD_OPS))
             spec['flip_level'] = draw(S._B)
+            spec['mix'] = draw(S._B)
             if r < 8:
                 spec['mut'] = []
     if mode == 'bytes':
@@ -313,8 +314,13 @@ def build_body(spec, tag, name, call, force_final=False):
         return text.encode('utf-8', 'surrogatepass')
     if spec.get('flip_level'):
         class_level = not class_level
+    own_level = class_level
+    if spec.get('flip_level'):
+        own_level = not class_level
     text = R.valid_response(tag or 'IMETHODCALL', name or 'x', spec['pool'],
-                            class_level, payload_of=spec.get('payload_of'))
+                            class_level, payload_of=spec.get('payload_of'),
+                            mix=bool(spec.get('mix')),
+                            own_class_level=own_level)
     text = R.mutate(text, spec['mut'])
     body = text.encode('utf-8')
     if mode == 'bytes':
@@ -590,14 +596,16 @@ def _fixed_calls():
 
 
 def _crosskind_example(key):
-    opn, ci, kind_op, flip, eos, pull = key
+    opn, ci, kind_op, flip, eos, pull = key[:6]
+    mix = key[6] if len(key) > 6 else 0
     pool = dict(_FIXED_POOL, eos=bool(eos))
     calls = _fixed_calls()[opn]
     return {'call': calls[ci % len(calls)],
             'conn': {'dns': None, 'pull': pull, 'stats': False},
             'responses': [{'mode': 'xml', 'status': (200, 'OK'),
                            'headers': [], 'pool': pool, 'mut': [],
-                           'payload_of': kind_op, 'flip_level': bool(flip)}]}
+                           'payload_of': kind_op, 'flip_level': bool(flip),
+                           'mix': bool(mix)}]}
 
 
 def crosskind_keys():
@@ -613,7 +621,15 @@ def crosskind_keys():
                     for eos in ((1, 0) if kind.startswith('open_') else (1,)):
                         for pull in ((None, True) if opn.startswith('Iter')
                                      else (None,)):
-                            keys.append((opn, ci, kind_op, flip, eos, pull))
+                            keys.append((opn, ci, kind_op, flip, eos, pull,
+                                         0))
+                            if opn.startswith('Iter') or \
+                                    R.KIND.get(opn, 'void') not in (
+                                        'void', 'export', 'inst', 'iname',
+                                        'class', 'qualdecl'):
+                                # the right objects first, the others behind
+                                keys.append((opn, ci, kind_op, flip, eos,
+                                             pull, 1))
     return keys
 
 
